@@ -117,10 +117,16 @@ class Convert(Sub):
         exp = expected(spec)
         out.label('arg=' + spec['arg']['kind'], 'ec=' + ('molar' if ENERGY_UNITS[spec['ec_unit']][1] else 'per-particle'))
         out.nontrivial = spec['dc'] != 1.0 and bool(np.any((xa != 0.0) & (xa != 1.0)))
+        x_before = np.array(xa, copy=True)
         for meth, (f, unit) in exp.items():
             call = (lambda v, m=meth: getattr(uc, m)(v, d)) if meth == 'toVolumeFraction' else (lambda v, m=meth: getattr(uc, m)(v))
             try:
                 q = call(x)
+                if not np.array_equal(np.asarray(x, dtype=float), x_before):
+                    out.fail(sig + meth + '/modifies-argument', '%s changed the array it was given' % meth)
+                    x = build_arg(spec['arg'])
+                elif hasattr(q, 'magnitude') and isinstance(x, np.ndarray) and isinstance(q.magnitude, np.ndarray) and np.shares_memory(q.magnitude, x):
+                    out.fail(sig + meth + '/result-aliases-argument', '%s returned a quantity that shares memory with its argument' % meth)
             except Exception as exc:   # noqa -- "none raises for valid numeric input"
                 out.fail(sig + meth + '/raises', '%s(%r) raised %s: %s' % (meth, spec['arg'], type(exc).__name__, exc))
                 continue
